@@ -563,8 +563,8 @@ def text_oracle(ctx, spec, cls, dialect, sql, cons):
         has = dflts.get(d['db']) is not None
         if has != (d['col']['dsql'] is not None):
             ctx.oracle_fail('C14:%s:%s:%s' % (dialect, tag, 'default-undeclared' if has else 'default-missing'),
-                            '%s: column %s declared defaultSQL=%r but the text %s a DEFAULT clause'
-                            % (dialect, d['db'], d['col']['dsql'], 'has' if has else 'has no'), minimal_case(spec, ci, dialect))
+                            '%s: column %s declared defaultSQL=%r but the text %s DEFAULT clause'
+                            % (dialect, d['db'], d['col']['dsql'], 'has a' if has else 'has no'), minimal_case(spec, ci, dialect))
         if got[3] != '-':
             ctx.oracle_fail('C14:%s:%s:key-marker' % (dialect, tag), 'column %s carries a key marker' % d['db'],
                             minimal_case(spec, ci, dialect))
